@@ -10,6 +10,7 @@ mod fields;
 mod gen;
 mod layout;
 mod real;
+mod robust;
 mod stream;
 mod streamchk;
 mod util;
@@ -245,6 +246,9 @@ fn cmd_replay_beh(a: &Args) {
 		for (vi, ver) in pick_versions(&db, &beh, idx, nver, seed).into_iter().enumerate() {
 			let mut o = GenOpts::new(seed ^ ((idx as u64) << 20) ^ vi as u64, ver);
 			o.plan = ((idx + vi) % 2) as u8;
+			if beh.hist.iter().any(|e| e.k == "unk") {
+				o.unk_sizes.insert(64, [1u16, 7, 600][(idx + vi) % 3]);
+			}
 			let built = gen::build_beh(&db, &beh, &o);
 			let key = fnv(&built.bytes);
 			sink.count(key, nontrivial);
@@ -265,6 +269,14 @@ fn cmd_replay_beh(a: &Args) {
 					"inc13" => ctx.incremental("c13", stream::Frag::Whole, &mut viols),
 					"rows" => ctx.rowview(&mut viols),
 					"arrow" => ctx.arrow(&mut viols),
+					"c17" => {
+						let mut oc = o.clone();
+						oc.unk_sizes.clear();
+						let table: Vec<String> = beh.table.iter().filter(|k| db.for_version(ver[0], ver[1]).gecko || (*k != "gecko" && *k != "split")).cloned().collect();
+						let canon = gen::build_file(&db, &beh.occ, &beh.emit, &table, beh.fin.gactual, beh.meta == "some", 0, &oc);
+						ctx.c17(&canon, &mut viols)
+					}
+					"c08" => ctx.c08_insertions(&o, &mut viols),
 					"slpp" => ctx.slpp_roundtrip(&comps, (idx + vi) % 2 == 0, &mut viols),
 					other => panic!("unknown check {}", other),
 				}
@@ -277,12 +289,48 @@ fn cmd_replay_beh(a: &Args) {
 	sink.summary(json!({"behaviours": nbeh}));
 }
 
+/// C08: versions above the ceiling (other majors included) with longer payloads.
+fn cmd_newer(a: &Args) {
+	let db = LayoutDb::load(a.req("layout"));
+	let sink = Sink::new(a.get("replay-dir").unwrap_or("work/replays"));
+	let seed = a.num("seed", 1);
+	let threads = a.num("threads", 8) as usize;
+	let vers: [[u8; 3]; 7] = [[3, 17, 0], [3, 16, 1], [3, 255, 7], [4, 0, 0], [9, 9, 9], [200, 1, 2], [255, 255, 255]];
+	let extras = [0usize, 1, 4, 37];
+	let n = for_each_tagged(a.req("in"), "BEH", threads, a.num("stride", 1) as usize, a.num("max", u64::MAX) as usize, |idx, v| {
+		let beh: Beh = serde_json::from_value(v).expect("BEH json");
+		if beh.reg != "C" {
+			return;
+		}
+		for (vi, ver) in vers.iter().enumerate() {
+			let extra = extras[(idx + vi) % extras.len()];
+			let mut o = GenOpts::new(seed ^ ((idx as u64) << 20) ^ vi as u64, *ver);
+			o.extra = extra;
+			let built = gen::build_beh(&db, &beh, &o);
+			sink.count(fnv(&built.bytes), extra > 0);
+			sink.sample(|| json!({"version": ver, "extra_trailing_bytes_per_event": extra, "events": beh.hist.len(), "file_len": built.bytes.len()}));
+			let ctx = checks::Ctx::new(&db, &beh, &built);
+			let mut viols = vec![];
+			ctx.c08_newer(&mut viols);
+			for v in &viols {
+				sink.report(v, &|| checks::replay_record(&beh, &built, o.seed, o.plan));
+			}
+		}
+	});
+	sink.summary(json!({"behaviours": n}));
+}
+
 fn main() {
 	let a = Args::parse();
 	util::install_panic_hook();
 	match a.cmd.as_str() {
 		"replay-beh" => cmd_replay_beh(&a),
 		"fields" => fields::cmd_fields(&a),
+		"edges" => robust::cmd_edges(&a),
+		"newer" => cmd_newer(&a),
+		"fuzz" => robust::cmd_fuzz(&a),
+		"deep-meta" => robust::cmd_deep_meta(&a),
+		"probe-read" => robust::cmd_probe_read(&a),
 		"sched" => streamchk::cmd_sched(&a),
 		"cuts" => streamchk::cmd_cuts(&a),
 		"skip" => streamchk::cmd_skip(&a),
